@@ -449,6 +449,8 @@ class Gen:
             self.r.shuffle(macros)
         prog = self._program(nroutines)
         prog["macros"] = macros
+        if macros and self.r.random() < 0.5:
+            prog["order"] = interleave(self.r, len(macros), len(prog["routines"]))
         return prog
 
     def _program(self, nroutines=None):
@@ -466,6 +468,14 @@ class Gen:
         labels = list(self.labels_defined)
         bodies = [None if b is None else (self.fix(b, labels) or [self.op()]) for b in bodies]
         return {"imports": [], "macros": [], "routines": list(zip(hdrs, bodies))}
+
+
+def interleave(r, nmacros, nroutines):
+    """a definition order: routines in id order, macro definitions anywhere between them"""
+    order = [("r", i) for i in range(nroutines)]
+    for i in range(nmacros):
+        order.insert(r.randint(0, len(order)), ("m", i))
+    return order
 
 
 # --------------------------------------------------------------------------------- shape catalogue
